@@ -31,7 +31,7 @@ RULE = ("(1) one interval-arithmetic certificate (a Coq lemma |model expression 
         "points. Non-trivial = the entry / prediction is not identically zero by construction; distinct = distinct inputs.")
 ASSUMPTIONS = [
     "floats are read as the exact rationals they denote; the real-valued kernels (sqrt, ln, exp, sin, cos, pi) are the Coq standard library's, bounded by coq-interval (certificates rely on the stdlib Reals axioms and on coq-interval's proved correctness, checked by the Coq kernel)",
-    "a certificate's tolerance is 64 x 2^-52 x (r + r^2 (1 + |ln r|)) for the spline kernel (analogous condition numbers for the elastic kernels and the checkerboard): the error budget of the double-precision evaluation, far below any change of formula",
+    "a certificate's tolerance is 64 x 2^-52 x (r + r^2 (1 + |ln r|)) + 2^-1074 for the spline kernel (analogous condition numbers for the elastic kernels and the checkerboard): the error budget of the double-precision evaluation, far below any change of formula",
     "predict vs jacobian x parameters: tolerance 2^-40 x sum_j |J_ij p_j|",
     "Linear/Cubic: SciPy's interpolators are the specification (oracle); only pass-through of points, values and the rescale flag is checked",
 ]
@@ -83,7 +83,8 @@ def spline_cert(e, n, fe, fn, md, obs, kind):
         script = "rewrite spline_entry_coincident, Rminus_0_r, Rabs_R0. apply Rle_refl."
         mdl = "0"
     else:
-        tol = 64 * U * (r + r * r * (1 + abs(math.log(r))))
+        # + one subnormal ulp: the absolute granularity of doubles (results that underflow to 0 for subnormal distances)
+        tol = 64 * U * (r + r * r * (1 + abs(math.log(r)))) + 5e-324
         script = ("unfold spline_entry, spline_kernel. rewrite g_code_eq by (unfold dist; interval with (i_prec 90)). "
                   "unfold dist. interval with (i_prec 90).")
         mdl = fR(md)
